@@ -76,13 +76,13 @@ def run(tier):
     ev = C.Evidence(PROP, tier); fnd = C.Findings(PROP)
     bins = gox.build(os.path.join(C.scratch(), 'gox'), ['c14x'])
     L = 4 if tier == 'thorough' else 3
-    reduced = 'file-denied,child-profile,file-allowed,dbus,status,garbled,long-foreign,dup-of-file-denied,near-dup-of-file-denied,extra-keys'
+    reduced = 'file-denied,child-profile,dotted-profile,dotless-profile,file-allowed,dbus,status,garbled,long-foreign,dup-of-file-denied,near-dup-of-file-denied,extra-keys'
     if tier == 'thorough':
-        jobs = [['-len', '4', '-shard', str(i), '-of', '19'] for i in range(19)]
+        jobs = [['-len', '4', '-shard', str(i), '-of', '21'] for i in range(21)]
     else:
         # quick: every sequence of <= 2 records over the whole alphabet, every triple over a 9-record alphabet
-        jobs = [['-len', '2', '-shard', str(i), '-of', '19'] for i in range(19)]
-        jobs += [['-minlen', '3', '-len', '3', '-only', reduced, '-shard', str(i), '-of', '10'] for i in range(10)]
+        jobs = [['-len', '2', '-shard', str(i), '-of', '21'] for i in range(21)]
+        jobs += [['-minlen', '3', '-len', '3', '-only', reduced, '-shard', str(i), '-of', '12'] for i in range(12)]
 
     def shard(a):
         r = subprocess.run([bins['c14x'], '-mode', 'c14'] + a, capture_output=True, text=True, env=dict(os.environ, TMPDIR=C.scratch()))
